@@ -1157,6 +1157,9 @@ archive_entry_set_devmajor(struct archive_entry *entry, __LA_DEV_T m)
 {
 	entry->stat_valid = 0;
 	entry->ae_set |= AE_SET_DEV;
+	/* Keep the minor number of a device set with archive_entry_set_dev(). */
+	if (!entry->ae_stat.aest_dev_is_broken_down)
+		entry->ae_stat.aest_devminor = minor(entry->ae_stat.aest_dev);
 	entry->ae_stat.aest_dev_is_broken_down = 1;
 	entry->ae_stat.aest_devmajor = m;
 }
@@ -1166,6 +1169,9 @@ archive_entry_set_devminor(struct archive_entry *entry, __LA_DEV_T m)
 {
 	entry->stat_valid = 0;
 	entry->ae_set |= AE_SET_DEV;
+	/* Keep the major number of a device set with archive_entry_set_dev(). */
+	if (!entry->ae_stat.aest_dev_is_broken_down)
+		entry->ae_stat.aest_devmajor = major(entry->ae_stat.aest_dev);
 	entry->ae_stat.aest_dev_is_broken_down = 1;
 	entry->ae_stat.aest_devminor = m;
 }
@@ -1338,6 +1344,9 @@ void
 archive_entry_set_rdevmajor(struct archive_entry *entry, __LA_DEV_T m)
 {
 	entry->stat_valid = 0;
+	/* Keep the minor number of a device set with archive_entry_set_rdev(). */
+	if (!entry->ae_stat.aest_rdev_is_broken_down)
+		entry->ae_stat.aest_rdevminor = minor(entry->ae_stat.aest_rdev);
 	entry->ae_stat.aest_rdev_is_broken_down = 1;
 	entry->ae_stat.aest_rdev = 0;
 	entry->ae_stat.aest_rdevmajor = m;
@@ -1348,6 +1357,9 @@ void
 archive_entry_set_rdevminor(struct archive_entry *entry, __LA_DEV_T m)
 {
 	entry->stat_valid = 0;
+	/* Keep the major number of a device set with archive_entry_set_rdev(). */
+	if (!entry->ae_stat.aest_rdev_is_broken_down)
+		entry->ae_stat.aest_rdevmajor = major(entry->ae_stat.aest_rdev);
 	entry->ae_stat.aest_rdev_is_broken_down = 1;
 	entry->ae_stat.aest_rdev = 0;
 	entry->ae_stat.aest_rdevminor = m;
